@@ -91,6 +91,8 @@ var tokenSets = map[string][]string{
 	"inlines9":   {"*", "[", "](", ")", "`", "a", " ", "\n", "!"},
 	"blocks2":    {"# ", "---", "\n", "a", "1. ", "\t", "<div>", "[a]: b", "|", "~~~"},
 	"nestlinks":  {"[", "![", "*", "[b](c)", "](x)"},
+	"tabquote":   {">\t", " ", "```", "\n", "a"},
+	"tablist":    {"-\t", " ", "~~~", "\n", "a", "\t"},
 }
 
 // templates: seed documents with a window of symbolic bytes (T(F) of DESIGN 1.8).
@@ -199,11 +201,14 @@ func planC01(tier string, seed int64) (*Plan, error) {
 		p.Jobs = append(p.Jobs, alphaJobs("H_c01_convert", []string{"blocks", "fences"}, 7, []string{core})...)
 		p.Jobs = append(p.Jobs, tokenJobs("H_c01_convert", []string{"containers"}, 7, []string{core, all})...)
 		p.Jobs = append(p.Jobs, tokenJobs("H_c01_convert", []string{"inlines", "blocks2"}, 5, []string{core, all})...)
+		p.Jobs = append(p.Jobs, tokenJobs("H_c01_convert", []string{"tabquote", "tablist"}, 7, []string{core, all})...)
 		p.Jobs = append(p.Jobs, tmplJobs("H_c01_convert", coreTemplates, []string{all, cfg("core", "autoid,attr", "unsafe"), cfg("gfm,cjk", "attr", "xhtml")})...)
 	} else {
 		p.Jobs = append(p.Jobs, tokenJobs("H_c01_convert", []string{"contain5"}, 6, []string{core})...)
 		p.Jobs = append(p.Jobs, tokenJobs("H_c01_convert", []string{"contain5"}, 5, []string{all})...)
 		p.Jobs = append(p.Jobs, tokenJobs("H_c01_convert", []string{"inlines9", "blocks2"}, 4, []string{core})...)
+		p.Jobs = append(p.Jobs, tokenJobs("H_c01_convert", []string{"tabquote"}, 6, []string{core})...)
+		p.Jobs = append(p.Jobs, tokenJobs("H_c01_convert", []string{"tablist"}, 5, []string{core})...)
 		p.Jobs = append(p.Jobs, tmplJobs("H_c01_convert", coreTemplates, []string{all})...)
 	}
 	docs, err := LoadCorpus()
@@ -219,7 +224,7 @@ func planC01(tier string, seed int64) (*Plan, error) {
 		"S(2)":          "every byte string of length 0..2 (256 values per byte) x 36 configurations: " + fmt.Sprint(cfgs),
 		"S(3)":          "every byte string of length 3 x " + fmt.Sprint(s3),
 		"S(L,alphabet)": fmt.Sprintf("every string of length %d over each alphabet %v x {core, all extensions+autoid+attr}", la, alphabets),
-		"tokens":        fmt.Sprintf("quick: every sequence of 6 (core) / 5 (all) tokens from 'contain5', 4 tokens from 'inlines9'/'blocks2'; thorough: 7 from 'containers', 5 from 'inlines'/'blocks2' x {core, all}: %v", tokenSets),
+		"tokens":        fmt.Sprintf("quick: every sequence of 6 (core) / 5 (all) tokens from 'contain5', 4 tokens from 'inlines9'/'blocks2', 6 from 'tabquote', 5 from 'tablist' (thorough 7); thorough: 7 from 'containers', 5 from 'inlines'/'blocks2' x {core, all}: %v", tokenSets),
 		"templates":     fmt.Sprintf("%d seed templates with a 2-byte fully symbolic window (link/image destinations, titles, labels, attributes, info strings, entities, raw HTML)", len(coreTemplates)),
 		"W(C,1)":        fmt.Sprintf("%d seeded (corpus document, offset) pairs with one fully symbolic byte, VERIF_SEED=%d; thorough adds W(C,2) on 150 pairs and S(4) core", nwin, seed),
 		"budget":        "20M SSA instructions per path stands for 'terminates'; a budget hit is replayed natively under a 20 s watchdog",
@@ -1226,3 +1231,77 @@ func planC04(tier string, seed int64) (*Plan, error) {
 }
 
 func init() { Plans["C04"] = planC04 }
+
+// ---- C10 ----
+
+func planC10(tier string, seed int64) (*Plan, error) {
+	p := &Plan{MustReach: []string{"done", "xhtml-exact", "unsafe-equal", "unsafe-fragments"}}
+	thorough := tier == "thorough"
+	gfmPin := "tableattr,strike,linkify,tasklist"
+	allPin := gfmPin + ",deflist,footnote,typographer"
+	exts := []string{"core", gfmPin, "footnote", "deflist", "typographer", allPin}
+	var jobs []interp.Job
+	for i, e := range exts {
+		po := ""
+		if i == len(exts)-1 {
+			po = "autoid,attr"
+		}
+		for n := 0; n <= 2; n++ {
+			jobs = append(jobs, job("H_c10_options", "ext", e, "popts", po, "n", n))
+		}
+	}
+	s3 := []string{}
+	if thorough {
+		s3 = []string{"core", allPin}
+	}
+	for _, e := range s3 {
+		jobs = append(jobs, job("H_c10_options", "ext", e, "n", 3))
+	}
+	la := 3
+	if thorough {
+		la = 5
+	}
+	alphas := []string{"a\n *<>", "![]()\na", "-*_ \n", "<a>\n/b", "a|-:\n", "[^1]:\na", "- [x] \n", "a\n: ~"}
+	for i, al := range alphas {
+		e := exts[i%len(exts)]
+		if i >= 4 {
+			e = allPin
+		}
+		jobs = append(jobs, job("H_c10_options", "ext", e, "n", la+1, "alpha", al))
+	}
+	// void-element and raw-HTML templates
+	voids := []tmpl{
+		{"![a](XX)", 5, 2}, {"a  \nXX", 4, 2}, {"a\\\nXX", 3, 2}, {"a\nXX\nc", 2, 2}, {"***\nXX", 4, 2}, {"- [ ] XX\n- [x] b", 6, 2}, {"a[^1]\n\n[^1]: XX", 14, 2},
+		{"| a | b |\n|:-|-:|\n| XX | d |", 20, 2}, {"<b>XX</b>", 3, 2}, {"<div>\nXX\n</div>", 6, 2}, {"<br/>XX<hr />", 5, 2}, {"[a](javascript:XX)", 15, 2}, {"![a](vbscript:XX)", 14, 2}, {"<javascript:XX>", 12, 2},
+		{"t\n: XX\n  b", 5, 2}, {"`a\nXX`", 3, 2}, {"![a\nXX](u)", 4, 2}, {"> a\nXX", 4, 2}, {"\"a\"\nXX--", 4, 2}, {"~~a\nXX~~", 4, 2}, {"<!-- XX -->", 5, 2}, {"<a href=\"XX\">", 9, 2},
+	}
+	for _, t := range voids {
+		jobs = append(jobs, job("H_c10_options", "ext", allPin, "popts", "attr", "seed", t.Seed, "pos", t.Pos, "window", t.W))
+	}
+	docs, err := LoadCorpus()
+	if err != nil {
+		return nil, err
+	}
+	nwin := 60
+	if thorough {
+		nwin = 1500
+	}
+	for i, sl := range corpusSlice(docs, seed, 120, nwin) {
+		e := []string{allPin, "core", gfmPin}[i%3]
+		jobs = append(jobs, job("H_c10_options", "ext", e, "seed", sl.D.Markdown, "pos", sl.Pos, "window", 1))
+	}
+	p.Jobs = jobs
+	p.Bounds = map[string]interface{}{
+		"options":       "all 8 combinations of {XHTML, HardWraps, Unsafe} on every path (8 conversions of the same symbolic source), table alignment pinned to the align attribute, CJK off",
+		"S(2)":          "every byte string of length 0..2 x extension sets " + fmt.Sprint(exts) + " (thorough: S(3) on core and all)",
+		"S(L,alphabet)": fmt.Sprintf("length %d over each of %q", la+1, alphas),
+		"templates":     fmt.Sprintf("%d void-element / raw-HTML / dangerous-URL / soft-break templates with a 2-byte symbolic window, all extensions + Attribute", len(voids)),
+		"W(C,1)":        fmt.Sprintf("%d seeded (corpus document, offset) pairs with one symbolic byte", nwin),
+		"oracles":       "XHTML (safe): output equals the HTML5 output with each void element's '>' replaced by ' />' (void elements found by the harness tokenizer); XHTML (unsafe): equal after deleting ' /' before '>'. HardWraps: equal after deleting <br> before newlines, and exactly one more <br> per soft-break Text node outside image alt text and code spans. Unsafe: equal when the tree has no RawHTML/HTMLBlock and no destination goldmark classifies as dangerous; otherwise equal before the first and after the last placeholder / emptied URL",
+		"outside":       "the middle fragments of documents with several raw-HTML pieces are compared only through prefix and suffix",
+	}
+	p.Rule = "relations between the 8 outputs asserted on every path"
+	return p, nil
+}
+
+func init() { Plans["C10"] = planC10 }
